@@ -52,6 +52,20 @@ Theorem C14_warmup_no_index : forall t a vi, rewards_started a t = false -> skip
 Proof. exact not_started_skipped. Qed.
 Print Assumptions C14_warmup_no_index.
 
+(* not retroactive: when UpdateAllianceAsset returns, the stored record has the new parameters, the
+   staked total / validator shares / start time of the old record, and a decay clock that starts at
+   the block time exactly when a schedule is configured where none was running (rate 1 or interval
+   0 before); a running schedule keeps the clock it had *)
+Theorem C14_schedule_change_is_not_retroactive : forall na a s s',
+  kget (assets s) [a_denom na] = Some a -> a_denom a = a_denom na ->
+  update_alliance_asset na s = Ok tt s' ->
+  exists b, kget (assets s') [a_denom na] = Some b /\
+    a_last b = schedule_clock (now s) a na /\
+    a_weight b = a_weight na /\ a_rate b = a_rate na /\ a_interval b = a_interval na /\ a_take b = a_take na /\
+    a_tokens b = a_tokens a /\ a_vshares b = a_vshares a /\ a_start b = a_start a.
+Proof. exact update_asset_clock. Qed.
+Print Assumptions C14_schedule_change_is_not_retroactive.
+
 (* non-vacuity: weight 1.0, rate 0.5 per hour, 3.5 hours late: 1/8, clock + 3 h *)
 Example C14_nonvacuous :
   let a := mkAsset 1 ONE 0 (5 * ONE) 0 0 0 0 (ONE / 2) 3600 0 true in
